@@ -207,10 +207,7 @@ func refSignature(s *signer, ks *keyset) (ok bool, class string, kidOK bool) {
 		}
 		inSet = true
 		if keyAlg[e.Key] == s.HeaderAlg {
-			kid := ""
-			if e.WithKid {
-				kid = "kid-" + e.Key
-			}
+			kid := e.kid()
 			return true, "", s.Kid == "" || s.Kid == kid
 		}
 	}
@@ -353,6 +350,21 @@ var sibling = map[string]string{
 type ksEntry struct {
 	Key     string
 	WithKid bool
+	// Kid, if set, is the key id the entry carries instead of its own
+	// ("kid-<other key>"): two groups may well use the same key id for
+	// different keys, and nothing learnt from one group's keys may be
+	// applied to another's.
+	Kid string
+}
+
+func (e ksEntry) kid() string {
+	if e.Kid != "" {
+		return e.Kid
+	}
+	if e.WithKid {
+		return "kid-" + e.Key
+	}
+	return ""
 }
 
 type keyset struct {
@@ -363,8 +375,9 @@ type keyset struct {
 }
 
 func ksDefs() []*keyset {
-	k := func(n string) ksEntry { return ksEntry{n, false} }
-	kk := func(n string) ksEntry { return ksEntry{n, true} }
+	k := func(n string) ksEntry { return ksEntry{Key: n} }
+	kk := func(n string) ksEntry { return ksEntry{Key: n, WithKid: true} }
+	as := func(n, other string) ksEntry { return ksEntry{Key: n, Kid: "kid-" + other} }
 	return []*keyset{
 		{Name: "hs256", E: []ksEntry{k("hs256")}},
 		{Name: "hs384", E: []ksEntry{k("hs384")}},
@@ -382,6 +395,10 @@ func ksDefs() []*keyset {
 		{Name: "hs256,hs256b", E: []ksEntry{k("hs256"), k("hs256b")}},
 		{Name: "hs384+kid,hs512+kid", E: []ksEntry{kk("hs384"), kk("hs512")}},
 		{Name: "hs256,es256+kid,rs256", E: []ksEntry{k("hs256"), kk("es256"), k("rs256")}},
+		// the same key id as another key set, bound to a different key
+		{Name: "hs256b@kid-hs256", E: []ksEntry{as("hs256b", "hs256")}},
+		{Name: "rs256b@kid-rs256", E: []ksEntry{as("rs256b", "rs256")}},
+		{Name: "es256b@kid-es256,hs256", E: []ksEntry{as("es256b", "es256"), k("hs256")}},
 		{Name: "empty", E: nil},
 	}
 }
@@ -706,8 +723,8 @@ func (h *harness) withKeys() error {
 			for a, b := range k.jwk[e.Key] {
 				m[a] = b
 			}
-			if e.WithKid {
-				m["kid"] = "kid-" + e.Key
+			if kid := e.kid(); kid != "" {
+				m["kid"] = kid
 			}
 			jwks = append(jwks, m)
 		}
